@@ -10,6 +10,7 @@ import (
 	"github.com/goccmack/gocc/internal/lexer/items"
 	"pgregory.net/rapid"
 	"verif.local/h/ev"
+	"verif.local/h/ex"
 )
 
 // C18 — rune classes form an exact disjoint partition.
@@ -212,6 +213,15 @@ func TestC18(t *testing.T) {
 			col.Eval()
 			if m := checkStatesOf(gcase.Grammar); m != "" {
 				t.Fatalf("replay fails: %s", m)
+			}
+			if gcase.Kind == "tables" {
+				if env, err := ex.FromEnv("c18replay"); err == nil {
+					if _, _, m, _, err := tablesOf(env, gcase.Grammar); err != nil {
+						t.Fatalf("INFRA: %v", err)
+					} else if m != "" {
+						t.Fatalf("replay fails: grammar:\n%s\ngenerated transition table: %s", gcase.Grammar, m)
+					}
+				}
 			}
 			return
 		}
